@@ -791,10 +791,11 @@ def _macro_body_tasks():
                 continue
             for d in range(0, n + 1):
                 for is_async in (False, True):
-                    if is_async and n == 3 and d not in (0, 3):
+                    if is_async and (n == 3 or (cls == "CallBlock" and n == 2)):
                         continue  # async only changes the `def` keyword; the largest shapes are run in sync mode
                     out.append(MacroBody(n, d, cls, is_async))
-    return out
+    # longest first (process pool)
+    return sorted(out, key=lambda t: -t.n)
 
 
 TASKS = _macro_body_tasks() + [
